@@ -11,8 +11,14 @@ same chain states."
 All theorems: ∀ value lists over ℝ, ∀ numbers of chains / draws / samples, ∀ burn-in and step counts, ∀ samplers
 (the sampler is an arbitrary function of the call number and the call), ∀ lists of observables.
 Model definitions: QV.Model.Stats (`updateStatistics`, `fromSamples`, `obsStatistics`, `sysStatistics`, `draws`,
-`chainSetup`, `numTimeSteps`), executed (Float) against `_update_statistics`, `ObservableBase.statistics` and
-`System.statistics` by the C13 correspondence check.
+`chainSetup`, `numTimeSteps`, `systemInit`, `systemStatistics`, `systemFromSamples`, `obsSample`), executed (Float)
+against `_update_statistics`, `ObservableBase.statistics / statistics_from_samples / sample` and
+`System.__init__ / statistics / statistics_from_samples` by the C13 correspondence check.
+
+FINDING (System/same-name-observables-merged): `System` keys its observables by `name`, so "any set of observables"
+holds only for pairwise different names (`C13_system_nodup`); observables sharing a name — `SigmaX()` and
+`SigmaX(absolute=True)`, `SWAP([0])` and `SWAP([1])` — are merged into the last one (`C13_system_dict`,
+`C13_system_same_name_merged`).
 -/
 import Mathlib.Analysis.SpecialFunctions.Sqrt
 import Mathlib.Tactic.FieldSimp
@@ -157,6 +163,35 @@ theorem C13_merge_empty_left (a : ℝ) (va : Option ℝ) (b : ℝ) (vb : Option 
       | some v => simp [h2, h2', oadd, hne]
     · have h2' : ¬ 1 < m := by omega
       simp [h2, h2']
+
+/-- **C13.1''** an empty right operand (a draw that produced nothing) returns the left one; its variance is kept
+only if it is defined (at least two values). Whatever mean / variance is reported for the empty chunk is ignored. -/
+theorem C13_merge_empty_right (a : ℝ) (va : Option ℝ) (b : ℝ) (vb : Option ℝ) (n : ℕ) (hn : 1 ≤ n) :
+    updateStatistics a va n b vb 0 = (a, if 2 ≤ n then va else none, n) := by
+  have hn0 : (n == 0) = false := beq_eq_false_iff_ne.mpr (by omega)
+  have hnR : (n : ℝ) ≠ 0 := by positivity
+  unfold updateStatistics
+  simp only [hn0, Bool.false_and, Bool.false_eq_true, if_false, transc_ofNat, Nat.cast_zero,
+    mul_zero, add_zero, zero_div, scaledVar, gt_iff_lt, Nat.not_lt_zero]
+  refine Prod.ext ?_ (Prod.ext ?_ rfl)
+  · simp only; field_simp
+  · by_cases h2 : 2 ≤ n
+    · have h2' : 1 < n := h2
+      have hne : ((n - 1 : ℕ) : ℝ) ≠ 0 := by
+        have : 1 ≤ n - 1 := by omega
+        positivity
+      cases va with
+      | none => simp [h2, h2', oadd]
+      | some v => simp [h2, h2', oadd, hne]
+    · have h2' : ¬ 1 < n := by omega
+      simp [h2, h2']
+
+/-- the statistics of a dataset merged with an empty right part are the statistics of the dataset (split `s = N`) -/
+theorem C13_merge_split_end (xs : List ℝ) (hx : 1 ≤ xs.length) (b : ℝ) (vb : Option ℝ) :
+    updateStatistics (mean xs) (uvarL xs) xs.length b vb 0
+      = (mean xs, if 2 ≤ xs.length then some (uvar xs) else none, xs.length) := by
+  rw [C13_merge_empty_right _ _ _ _ _ hx, uvarL_eq]
+  by_cases h : 2 ≤ xs.length <;> simp [h]
 
 /-! ### C13.2 — the streaming fold over any chunking -/
 
@@ -403,10 +438,11 @@ end whole
 section system
 variable {σ : Type}
 
-/-- **C13.5** in `System.statistics` every observable gets exactly the dictionary (and the run makes exactly the
-sampler calls) that `ObservableBase.statistics` gives for that observable alone with the same sampler, hence on
-the same chain states; in particular `total_samples` equals each observable's own count. (Observables are
-assumed to return at least one value per batch, so that no call fails half-way.) -/
+/-- **C13.5 (list level)** `System.statistics`' loop over the dictionary VALUES `fs` (one entry per distinct name, see
+`C13_system_init`): every entry gets exactly the dictionary (and the run makes exactly the sampler calls) that
+`ObservableBase.statistics` gives for that observable alone with the same sampler, hence on the same chain states; in
+particular `total_samples` equals each observable's own count. (Observables are assumed to return at least one value
+per batch, so that no call fails half-way.) The user-level statements are `C13_system_dict` / `C13_system_nodup`. -/
 theorem C13_system (env : Env σ) (fs : List (σ → List ℝ)) (a : Args σ) (hne : ∀ f ∈ fs, ∀ st, f st ≠ [])
     (j : ℕ) (hj : j < fs.length) :
     (sysStatistics env fs a).map (fun r => (r.1[j]?, r.2))
@@ -464,7 +500,175 @@ theorem C13_system_count (c m : ℕ) (rows : List (List (Stat ℝ))) :
 
 end system
 
+/-! ### C13.5 for `System` as the user calls it: observables keyed by name; `statistics_from_samples`; `sample` -/
+
+section system_dict
+variable {σ κ : Type} [BEq κ] [LawfulBEq κ]
+
+/-- **C13.5a** `System.__init__`: the dictionary has one entry per distinct name, in order of first occurrence, and
+the entry stored under a name is the LAST observable given with that name — observables sharing a name are merged. -/
+theorem C13_system_init {β : Type} (obs : List (κ × β)) :
+    (systemInit obs).map (·.1) = firstOcc (obs.map (·.1)) ∧ ((systemInit obs).map (·.1)).Nodup ∧
+      (∀ n, (systemInit obs).lookup n = obs.reverse.lookup n) ∧ (∀ e ∈ systemInit obs, e ∈ obs) :=
+  ⟨systemInit_keys obs, by rw [systemInit_keys]; exact firstOcc_nodup _, systemInit_lookup obs, mem_systemInit obs⟩
+
+/-- with pairwise different names the dictionary is exactly the given list of observables -/
+theorem C13_system_init_nodup {β : Type} (obs : List (κ × β)) (h : (obs.map (·.1)).Nodup) : systemInit obs = obs :=
+  systemInit_of_nodup obs h
+
+/-- **C13.5b** (`System.statistics` as called by the user, any names): the entry returned under the name `n` is
+exactly the dictionary — and the run makes exactly the sampler calls — that `ObservableBase.statistics` gives, alone
+with the same sampler, for the LAST observable that was given with the name `n`. -/
+theorem C13_system_dict (env : Env σ) (obs : List (κ × (σ → List ℝ))) (a : Args σ)
+    (hne : ∀ o ∈ obs, ∀ st, o.2 st ≠ []) (n : κ) (f : σ → List ℝ) (hlast : obs.reverse.lookup n = some f) :
+    (systemStatistics env obs a).map (fun r => (r.1.lookup n, r.2))
+      = (obsStatistics env f a).map (fun r => (some r.1, r.2)) := by
+  have hd : (systemInit obs).lookup n = some f := by rw [systemInit_lookup]; exact hlast
+  obtain ⟨l₁, l₂, hsplit, hl₁⟩ := List.lookup_eq_some_iff.mp hd
+  have hj : l₁.length < ((systemInit obs).map (·.2)).length := by rw [hsplit]; simp
+  have hfj : ((systemInit obs).map (·.2))[l₁.length] = f := by simp [hsplit]
+  have hne' : ∀ g ∈ (systemInit obs).map (·.2), ∀ st, g st ≠ [] := by
+    intro g hg st
+    obtain ⟨e, he, rfl⟩ := List.mem_map.mp hg
+    exact hne e (mem_systemInit obs e he) st
+  have key := C13_system env ((systemInit obs).map (·.2)) a hne' l₁.length hj
+  rw [hfj] at key
+  have hkeys : (systemInit obs).map (·.1) = l₁.map (·.1) ++ n :: l₂.map (·.1) := by rw [hsplit]; simp
+  have hnk : n ∉ l₁.map (·.1) := by
+    intro hmem
+    obtain ⟨p, hp, rfl⟩ := List.mem_map.mp hmem
+    have := hl₁ p hp
+    simp at this
+  unfold systemStatistics
+  simp only
+  cases hs : sysStatistics env ((systemInit obs).map (·.2)) a with
+  | error e => rw [hs] at key; simpa [Except.map] using key
+  | ok r =>
+    rw [hs] at key
+    cases ho : obsStatistics env f a with
+    | error e => rw [ho] at key; simp [Except.map] at key
+    | ok q =>
+      rw [ho] at key
+      simp only [Except.map, Except.ok.injEq, Prod.mk.injEq] at key ⊢
+      refine ⟨?_, key.2⟩
+      rw [hkeys]
+      exact lookup_zip_at _ _ n hnk r.1 q.1 (by simpa using key.1)
+
+/-- **C13.5** (the statement's clause, for sets of observables with pairwise different names): evaluating the
+observables together gives EACH of them — under its own name — exactly the dictionary it would get alone with the
+same sampler, hence on the same chain states, and the same sampler calls are made. -/
+theorem C13_system_nodup (env : Env σ) (obs : List (κ × (σ → List ℝ))) (a : Args σ)
+    (hne : ∀ o ∈ obs, ∀ st, o.2 st ≠ []) (hnd : (obs.map (·.1)).Nodup) (j : ℕ) (hj : j < obs.length) :
+    (systemStatistics env obs a).map (fun r => (r.1.lookup obs[j].1, r.2))
+      = (obsStatistics env obs[j].2 a).map (fun r => (some r.1, r.2)) := by
+  refine C13_system_dict env obs a hne _ _ ?_
+  refine lookup_of_nodup obs.reverse ?_ obs[j] (by simp)
+  rw [List.map_reverse, List.nodup_reverse]; exact hnd
+
+/-- **FINDING (System/same-name-observables-merged)** two observables given with the same name: the returned
+dictionary has the single key `n`, and its entry is what the SECOND observable gets alone — the first observable's
+statistics are not reported at all (whatever its values are). -/
+theorem C13_system_same_name_merged (env : Env σ) (n : κ) (f g : σ → List ℝ) (a : Args σ)
+    (hf : ∀ st, f st ≠ []) (hg : ∀ st, g st ≠ []) :
+    (systemStatistics env [(n, f), (n, g)] a).map (fun r => (r.1.map (·.1), r.1.lookup n, r.2))
+      = (obsStatistics env g a).map (fun r => ([n], some r.1, r.2)) := by
+  have hne : ∀ o ∈ [(n, f), (n, g)], ∀ st, o.2 st ≠ [] := by
+    intro o ho st
+    simp only [List.mem_cons, List.not_mem_nil, or_false] at ho
+    rcases ho with rfl | rfl
+    · exact hf st
+    · exact hg st
+  have key := C13_system_dict env [(n, f), (n, g)] a hne n g (by simp)
+  have hinit : systemInit [(n, f), (n, g)] = [(n, g)] := by simp [systemInit, dictSet]
+  unfold systemStatistics at key ⊢
+  simp only [hinit, List.map_cons, List.map_nil] at key ⊢
+  cases hs : sysStatistics env [g] a with
+  | error e =>
+    rw [hs] at key
+    cases ho : obsStatistics env g a with
+    | error e' => rw [ho] at key; simpa [Except.map] using key
+    | ok q => rw [ho] at key; simp [Except.map] at key
+  | ok r =>
+    rw [hs] at key
+    cases ho : obsStatistics env g a with
+    | error e => rw [ho] at key; simp [Except.map] at key
+    | ok q =>
+      rw [ho] at key
+      simp only [Except.map, Except.ok.injEq, Prod.mk.injEq] at key ⊢
+      obtain ⟨k1, k2⟩ := key
+      refine ⟨?_, k1, k2⟩
+      cases hr : r.1 with
+      | nil => rw [hr] at k1; simp at k1
+      | cons s ss => simp
+
+/-- **C13.6** `System.statistics_from_samples`: the entry under the name `n` is the one-pass statistics of the values
+of the last observable given with that name on the given batch (for non-empty values). -/
+theorem C13_system_fromSamples (obs : List (κ × (σ → List ℝ))) (samples : σ)
+    (hne : ∀ o ∈ obs, o.2 samples ≠ []) (n : κ) (f : σ → List ℝ) (hlast : obs.reverse.lookup n = some f) :
+    (systemFromSamples obs samples).map (fun r => r.lookup n) = .ok (some (onePass (f samples))) := by
+  have hd : (systemInit obs).lookup n = some f := by rw [systemInit_lookup]; exact hlast
+  have hcol : systemFromSamples obs samples
+      = .ok ((systemInit obs).map (fun o => (o.1, onePass (o.2 samples)))) := by
+    unfold systemFromSamples
+    refine collect_map_ok _ _ _ (fun o ho => ?_)
+    rw [C13_fromSamples _ (hne o (mem_systemInit obs o ho))]
+  rw [hcol]
+  simp only [Except.map, Except.ok.injEq]
+  rw [lookup_map_snd (systemInit obs) (fun o => onePass (o.2 samples)) n]
+  obtain ⟨l₁, l₂, hsplit, hl₁⟩ := List.lookup_eq_some_iff.mp hd
+  rw [hsplit, List.find?_append]
+  have : l₁.find? (fun e => n == e.1) = none := by
+    rw [List.find?_eq_none]
+    intro p hp
+    have := hl₁ p hp
+    simpa using this
+  simp [this]
+
+/-- an empty batch: every observable's `statistics_from_samples` divides by `len(obs_samples) = 0` -/
+theorem C13_fromSamples_empty : fromSamples ([] : List ℝ) = .error .ZeroDivisionError := rfl
+
+end system_dict
+
+section sample
+variable {σ : Type}
+
+/-- **C13.7** `ObservableBase.sample`: exactly one sampler call, receiving the caller's `num_samples`, `k`,
+`initial_state` and `overwrite` unchanged, and the values are the observable on the tensor that call returned. -/
+theorem C13_sample (env : Env σ) (f : σ → List ℝ) (k ns : ℕ) (init : Option σ) (ow : Bool) :
+    obsSample env f k ns init ow
+      = (f (env.samp 0 { numSamples := ns, k := k, init := init, overwrite := ow }),
+         { numSamples := ns, k := k, init := init, overwrite := ow }) := rfl
+
+end sample
+
 /-! ### Non-vacuity -/
+
+/-- the merged pair of the finding, concretely: `f ≡ [0, 0]` and `g ≡ [1, 1]` under one name, one draw of two
+chains — the system reports mean 1 under that name, while `f` alone has mean 0. -/
+example (env : Env Unit) :
+    ∃ r s, systemStatistics env [("SigmaX", fun _ => [(0 : ℝ), 0]), ("SigmaX", fun _ => [1, 1])] ⟨2, 2, 0, 0, none, false⟩ = .ok r ∧
+      r.1.map (·.1) = ["SigmaX"] ∧ obsStatistics env (fun _ => [(0 : ℝ), 0]) ⟨2, 2, 0, 0, none, false⟩ = .ok s ∧
+      (r.1.lookup "SigmaX").map (·.mean) = some 1 ∧ s.1.mean = 0 := by
+  have hm := C13_system_same_name_merged env "SigmaX" (fun _ => [(0 : ℝ), 0]) (fun _ => [1, 1]) ⟨2, 2, 0, 0, none, false⟩
+    (by simp) (by simp)
+  obtain ⟨T, hT, _, hg⟩ := C13_statistics_one_pass env (fun _ => [(1 : ℝ), 1]) ⟨2, 2, 0, 0, none, false⟩ (by simp)
+    (by simp [chainSetup]) (by simp [chainSetup])
+  obtain ⟨T', hT', _, hf⟩ := C13_statistics_one_pass env (fun _ => [(0 : ℝ), 0]) ⟨2, 2, 0, 0, none, false⟩ (by simp)
+    (by simp [chainSetup]) (by simp [chainSetup])
+  have hT1 : T = 1 := by simp [chainSetup, numTimeSteps] at hT; omega
+  have hT1' : T' = 1 := by simp [chainSetup, numTimeSteps] at hT'; omega
+  subst hT1 hT1'
+  simp only at hg hf
+  rw [hg.1] at hm
+  cases hs : systemStatistics env [("SigmaX", fun _ => [(0 : ℝ), 0]), ("SigmaX", fun _ => [1, 1])] ⟨2, 2, 0, 0, none, false⟩ with
+  | error e => rw [hs] at hm; simp [Except.map] at hm
+  | ok r =>
+    rw [hs] at hm
+    simp only [Except.map, Except.ok.injEq, Prod.mk.injEq] at hm
+    refine ⟨r, _, rfl, hm.1, hf.1, ?_, ?_⟩
+    · rw [hm.2.1]; simp [onePass, mean, draws, chainSetup]
+    · simp [onePass, mean, draws, chainSetup]
+
 
 /-- three chunks of two values: hypotheses of `C13_stream` hold and the one-pass variance is defined -/
 example : finish (foldStats 2 ([[1, 4], [2, 2], [7, -3]].map statOf))
